@@ -519,6 +519,59 @@ impl Front {
         }
     }
 
+    /// One text of more than 2^32 bytes: a 4 GiB comment line, then a small file with a syntax error (or
+    /// without one, ending early).  The reference runs on the small file; every position is that result
+    /// plus the length of the comment line.
+    fn c09_giant(&self, w: &mut Worker) {
+        let pad = (1usize << 32) + 35 - 3;
+        let tails: [&str; 3] = ["start Expr struct Expr { value:: $Num }\n", "start Expr struct Expr { value: $Num ", "start Expr enum Expr { A($Num) }\nterminal T { $Num: u8 }\n#[x]"];
+        let tail = tails[(w.seed % 3) as usize];
+        let mut text = String::with_capacity(pad + 128);
+        text.push_str("//");
+        let chunk = "x".repeat(1 << 22);
+        while text.len() + chunk.len() <= pad {
+            text.push_str(&chunk);
+        }
+        while text.len() < pad {
+            text.push('y');
+        }
+        text.push('\n');
+        let off = text.len();
+        text.push_str(tail);
+        // reference on the tail
+        let Ok(rt) = rlex::lex(tail) else {
+            w.inconclusive("giant C09 case: the tail does not lex");
+            return;
+        };
+        let expected = match rkiki::parse_tokens(tail, &rt) {
+            Ok(_) => None,
+            Err(i) => Some(match i.and_then(|i| rt.get(i)) {
+                Some(t) => (t.start + off, tail[t.start..t.end].to_string(), t.end + off),
+                None => (tail.len() + off, String::new(), tail.len() + off),
+            }),
+        };
+        let (out, _) = kside::generate(&text, 50_000_000);
+        w.eval();
+        w.count("class:text-larger-than-2^32-bytes");
+        w.max("max-text-bytes", text.len() as u64);
+        let got = match &out {
+            GenOutcome::Err(KikiErr::Parse(s, c, e)) => Some((s.0, c.clone(), e.0)),
+            _ => None,
+        };
+        let agrees = match (&expected, &out) {
+            (None, GenOutcome::Err(KikiErr::Parse(..))) | (None, GenOutcome::Err(KikiErr::Lex(..))) | (None, GenOutcome::Panic(_)) => false,
+            (None, _) => true,
+            (Some(_), _) => got == expected,
+        };
+        if !agrees {
+            w.violation(
+                "parse-error-span-differs:text-larger-than-2^32-bytes",
+                &format!("expected {expected:?}, generate returned {}", out.render()),
+                json!({"text": format!("`//` + {} filler bytes + newline + {tail:?}", pad - 2), "expected": format!("{expected:?}"), "kiki": out.render()}),
+            );
+        }
+    }
+
     fn c09(&self, w: &mut Worker, class: &str, text: &str) {
         let Ok(rt) = rlex::lex(text) else {
             w.count("not-applicable:lexically-invalid");
@@ -729,6 +782,7 @@ impl Engine for Front {
             + match prop {
                 "C07" => super::stress::n_stress(tier),
                 "C08" => SWEEP_CASES,
+                "C09" => 1,
                 _ => 0,
             }
     }
@@ -740,6 +794,10 @@ impl Engine for Front {
         }
         if prop == "C08" && idx >= n_batches("C08", w.tier) {
             self.c08_sweep(w, idx - n_batches("C08", w.tier));
+            return;
+        }
+        if prop == "C09" && idx >= n_batches("C09", w.tier) {
+            self.c09_giant(w);
             return;
         }
         for sub in 0..BATCH {
@@ -758,6 +816,9 @@ impl Engine for Front {
         if prop == "C07" && idx >= n_batches("C07", tier) {
             return super::stress::describe(tier, seed, idx - n_batches("C07", tier));
         }
+        if prop == "C09" && idx >= n_batches("C09", tier) {
+            return json!({"class": "text-larger-than-2^32-bytes", "text": "a `//` comment line of 2^32 + 32 bytes followed by a small file (see the violation's witness)"});
+        }
         if prop == "C08" && idx >= n_batches("C08", tier) {
             return match sweep_text(idx - n_batches("C08", tier), sub) {
                 Some((class, text)) => json!({"class": class, "text": text, "text_debug": format!("{text:?}")}),
@@ -773,7 +834,7 @@ impl Engine for Front {
     fn rule(&self, prop: &str) -> String {
         match prop {
             "C08" => format!("inputs: every string of 1 and 2 atoms (3 in the thorough tier) over a {}-atom alphabet built to hit every lexer transition (identifier characters, digits, all punctuation and brackets, $ # / :, LF CR CRLF TAB VT FF, every kind of Unicode White_Space (U+0085 U+00A0 U+1680 U+2000..U+200A U+2028 U+2029 U+202F U+205F U+3000), look-alikes that are not whitespace (U+200B U+180E U+FEFF U+001C), 2/3/4-byte letters, non-ASCII digits / numerics / letters / combining marks (² ½ ٣ １ Ⅷ ß Ω ａ İ U+0301 U+200D), reserved words, //, #[, ::, $x, $start ...), random soups of up to 64 atoms, valid files with 1-3 character edits, prefixes of valid files cut at every kind of boundary, attribute-centred bracket soups, token soups with and without separators; plus an EXHAUSTIVE code-point sweep: every one of the 1 112 064 Unicode scalar values in each of 7 single-character contexts (start of text, inside an identifier, after $, after /, after #, after :, after a terminal identifier) and in 4 contexts inside comments and attributes (plain, in a string, in nested brackets; 256 code points per text). One evaluation = one string tokenised by kiki (tap on the tokenizer + generate at the public boundary) compared token by token (kind, start, text) or error by error (byte index, character) with the reference scanner R-lex. Distinct non-trivial = distinct strings with >=2 tokens or a lexical error at index > 0.", gtext::ATOMS.len()),
-            "C09" => "inputs: lexically valid texts built from token sequences: prefix p of a valid file (repository examples, rendered grammar models, random sentences of the Kiki grammar itself) extended by each of the 17 token kinds (prefix-extension sweep), valid files with 0-3 token edits, token soups; joined with random whitespace/comments so spans are non-trivial. One evaluation = generate(text) compared with the verdict of the Kiki grammar as data under the reference canonical LR(1) recogniser (cross-checked by a hand-written predictive recogniser): accept, or Parse(start,text,end) of the first token that cannot continue any valid file, or the empty span at the end. Distinct non-trivial = distinct token-kind sequences rejected at index >=1 or accepted with >=10 tokens.".into(),
+            "C09" => "inputs: ONE text of 2^32 + 70 bytes (a 4 GiB comment line, then a small file with a syntax error: every reported position lies beyond 2^32) and lexically valid texts built from token sequences: prefix p of a valid file (repository examples, rendered grammar models, random sentences of the Kiki grammar itself) extended by each of the 17 token kinds (prefix-extension sweep), valid files with 0-3 token edits, token soups; joined with random whitespace/comments so spans are non-trivial. One evaluation = generate(text) compared with the verdict of the Kiki grammar as data under the reference canonical LR(1) recogniser (cross-checked by a hand-written predictive recogniser): accept, or Parse(start,text,end) of the first token that cannot continue any valid file, or the empty span at the end. Distinct non-trivial = distinct token-kind sequences rejected at index >=1 or accepted with >=10 tokens.".into(),
             "C10" => "inputs: syntactically valid files: (a) rendered grammar models with 0-3 injected edits (rename to an existing / hostile name, flip a reference between $terminal and nonterminal namespace, drop/duplicate start, drop/duplicate terminal enum, duplicate variant / nonterminal / terminal variant, start naming a terminal, capitalisation flips), re-laid-out at random; (b) random declarations over a 14-name pool so that every kind and combination of violation occurs. One evaluation = generate(text) compared with the set of all violations computed by R-validate from the reference AST: Ok/TableConflict only if the set is empty, otherwise the reported error (variant, name / symbol sequence, every byte position) must be an element of the set. Distinct non-trivial = distinct files (hash of the declaration structure) with >=1 violation present.".into(),
             _ => "inputs: the union of the C08, C09 and C10 workloads (character soups incl. every 1- and 2-atom string, token-level and character-level edits of valid files, prefixes, files with injected static violations, well-formed but unusual grammars) plus size/depth stress files inside the property's bounds run in separate child processes in both the optimised and the unoptimised (dev-profile) build. One evaluation = one call of generate under catch_unwind with the H2 step limit armed (limit derived from the reference automaton when the text is a well-formed grammar); panics, step-limit trips, deaths by signal and exhausted CPU budgets are the refuting events. Distinct non-trivial = distinct inputs that got past the tokenizer.".into(),
         }
